@@ -451,6 +451,8 @@ fn nest_doc(depth: usize) -> Vec<u8> {
 const FRAG_NAMES: &[&str] = &[
     "iframe", "noembed", "noframes", "noscript", "plaintext", "script", "style", "title", "textarea", "xmp", "div", "", "a", "scriptx", "scrip", "titl", "titles", "textareas", "xm", "svg", "template",
     "noscrip", "i", "s", "t", "plain text", "script ", " title", "html", "head",
+    // non-ASCII: long s, dotted capital I, dotless i, Kelvin sign, accented letters, a non-BMP character
+    "\u{17f}cript", "scr\u{130}pt", "t\u{131}tle", "\u{212a}", "x\u{212a}mp", "t\u{ee}tle", "styl\u{e9}", "title\u{1f600}", "\u{e9}",
 ];
 
 fn case_variants(n: &str) -> Vec<String> {
@@ -860,16 +862,23 @@ fn run(case: &Value) -> Obs {
         None => return Obs::invalid("bytes"),
     };
     let ctx = s(case, "ctx");
-    if let Some(c) = &ctx {
-        if !c.is_ascii() {
-            return Obs::invalid("non-ASCII context tag (Unicode lower-casing is not modelled)");
-        }
-    }
+    // A context tag with a non-ASCII character can never be accepted: the ten names are ASCII, and the only characters
+    // whose `to_lowercase()` contains an ASCII letter are U+212A KELVIN SIGN (-> "k", in no name) and U+0130 (-> "i" + U+0307,
+    // not a name either).  The model maps every non-ASCII character to a byte that matches nothing; the oracle below checks
+    // the implementation side of this argument directly.
+    let non_ascii_ctx = ctx.as_deref().map(|c| !c.is_ascii()).unwrap_or(false);
     let cdata = case.get("cdata").and_then(|v| v.as_bool()).unwrap_or(true);
     let one = observe_with(&bytes, ctx.as_deref(), cdata);
+    let ctx0_empty = one.obs.get(2).and_then(|v| v.as_str()).map(|x| x.is_empty()).unwrap_or(false);
     let mut o = Obs::new(one.obs).trivial(one.ntok <= 1);
     if ctx.is_some() {
         o.tags.push("fragment-ctx".to_string());
+    }
+    if non_ascii_ctx {
+        o.tags.push("fragment-ctx-non-ascii".to_string());
+        if !ctx0_empty {
+            o = o.fail(format!("new_fragment accepted the non-ASCII context tag {:?}", ctx.as_deref().unwrap_or("")), "raw-tag-context");
+        }
     }
     if !cdata {
         o.tags.push("no-cdata".to_string());
